@@ -1266,6 +1266,20 @@ func (g *gen) behC20() M {
 		}
 		// the frontend may prespecify any number of parameter types: Describe still announces what ParseParameters reported
 		nm := g.pick("", "", "Lookup", "s_1")
+		if g.chance(0.3) {
+			// an earlier statement of the session declares typed parameters (the application wrote the types into
+			// a list it got from ParseParameters): the placeholders of later statements are unspecified all the same
+			g.id++
+			typed := M{"id": g.id, "cols": []any{}, "oids": []any{23, 25, 1043, 20}[:1+g.rng.Intn(4)], "prog": []any{M{"op": "complete", "tag": "OK"}, M{"op": "ret", "r": "nil"}}}
+			steps = append(steps, startup("u"), send(M{"t": "P", "name": "typed", "q": M{"id": g.id, "parse": "ok", "stmts": []any{typed}}, "noids": 0}), send(M{"t": "S"}))
+			steps = append(steps, send(M{"t": "P", "name": nm, "q": M{"id": g.id + 1, "parse": "ok", "stmts": []any{st}}, "noids": 0}))
+			g.id++
+			st["id"] = g.id
+			steps = append(steps, send(M{"t": "D", "kind": "S", "name": nm}), send(M{"t": "S"}))
+			cfg := baseCfg()
+			cfg["limit"] = 1 << 20
+			return M{"cfg": cfg, "steps": steps}
+		}
 		steps = append(steps, startup("u"), send(M{"t": "P", "name": nm, "q": M{"id": g.id, "parse": "ok", "stmts": []any{st}}, "noids": []int{0, 0, 1, 2, 3, 7}[g.rng.Intn(6)]}))
 		if nm != "" && g.chance(0.6) {
 			// another statement under a name that differs in letter case only, with another number of
